@@ -982,6 +982,53 @@ theorem dash_update_creates_cycle_old_counterexample :
   have h1 := h [.createFolder 1 [97] 0, .updateDash 1 1 [97] "p" (some 1)] 1
   revert h1; decide
 
+/-- C20.K5 (folders, patch c20-13), in ANY state: an ACCEPTED updateFolder that moves the folder or changes its name
+leaves no OTHER child of the folder's (new) parent with the folder's (new) name — the test `createFolder` and a rename
+always made is now made for a move as well. -/
+theorem update_folder_ok_name_free (st : St) (t id : Nat) (name : Option Key) (newParent : Option Nat) (it : Item)
+    (hit : (st.fs t).items.get id = some it)
+    (hchg : (∃ np, newParent = some np ∧ some np ≠ it.parent) ∨ (∃ n, name = some n ∧ n ≠ it.name))
+    (hok : (step st (.updateFolder t id name newParent)).2 = .res .ok) :
+    ∃ it', ((step st (.updateFolder t id name newParent)).1.fs t).items.get id = some it' ∧
+      ∀ p, it'.parent = some p →
+        nameTaken ((step st (.updateFolder t id name newParent)).1.fs t) p it'.name none (some id) = false := by
+  by_cases h0 : id = 0
+  · simp [step, stepG, h0] at hok
+  by_cases hty : ¬ it.ty = .folder
+  · simp [step, stepG, hit, h0, hty] at hok
+  have hty : it.ty = .folder := Classical.not_not.mp hty
+  cases newParent with
+  | none =>
+    have hs : step st (.updateFolder t id name none) = Lemmas.C20K.Dash.tailOf st t id name (st.fs t) it.parent it false := by
+      simp [step, stepG, hit, h0, hty, Lemmas.C20K.Dash.tailOf, Lemmas.C20K.Dash.renOf, Lemmas.C20K.Dash.takenOf, Lemmas.C20K.Dash.newNameOf, Lemmas.C20K.Dash.it2Of] <;> rfl
+    rw [hs] at hok ⊢
+    refine Lemmas.C20K.Dash.rename_tail st t id name (st.fs t) it.parent it false rfl ?_ hok
+    rcases hchg with ⟨np, h1, _⟩ | ⟨n, h1, h2⟩
+    · cases h1
+    · simp [Lemmas.C20K.Dash.renOf, h1, h2]
+  | some np =>
+    by_cases hm : some np = it.parent
+    · have hs : step st (.updateFolder t id name (some np)) = Lemmas.C20K.Dash.tailOf st t id name (st.fs t) (some np) it false := by
+        simp [step, stepG, hit, h0, hty, hm, Lemmas.C20K.Dash.tailOf, Lemmas.C20K.Dash.renOf, Lemmas.C20K.Dash.takenOf, Lemmas.C20K.Dash.newNameOf, Lemmas.C20K.Dash.it2Of] <;> rfl
+      rw [hs] at hok ⊢
+      refine Lemmas.C20K.Dash.rename_tail st t id name (st.fs t) (some np) it false hm ?_ hok
+      rcases hchg with ⟨np', h1, h2⟩ | ⟨n, h1, h2⟩
+      · cases h1; exact absurd hm h2
+      · simp [Lemmas.C20K.Dash.renOf, h1, h2]
+    · cases hp : (st.fs t).items.get np with
+      | none => simp [step, stepG, hit, h0, hty, hm, hp] at hok
+      | some p =>
+        by_cases hpt : ¬ p.ty = .folder
+        · simp [step, stepG, hit, h0, hty, hm, hp, hpt] at hok
+        have hpt : p.ty = .folder := Classical.not_not.mp hpt
+        by_cases hr : reaches (st.fs t) id (fuel (st.fs t)) (some np) = true
+        · simp [step, stepG, hit, h0, hty, hm, hp, hpt, hr] at hok
+        have hs : step st (.updateFolder t id name (some np)) =
+            Lemmas.C20K.Dash.tailOf st t id name (Lemmas.C20K.Dash.movedFS (st.fs t) id it np) (some np) { it with parent := some np } true := by
+          simp [step, stepG, hit, h0, hty, hm, hp, hpt, hr, Lemmas.C20K.Dash.tailOf, Lemmas.C20K.Dash.renOf, Lemmas.C20K.Dash.takenOf, Lemmas.C20K.Dash.newNameOf, Lemmas.C20K.Dash.it2Of, Lemmas.C20K.Dash.movedFS] <;> rfl
+        rw [hs] at hok ⊢
+        exact Lemmas.C20K.Dash.rename_tail st t id name _ (some np) { it with parent := some np } true rfl (by simp) hok
+
 /-- OLD behaviour (before patch c20-13) REFUTED: `createFolder` and a folder rename refuse a name that a sibling
 carries ("already exists in this location"), but `updateFolder` ran that test only when the request RENAMED the
 folder: a folder that was only moved landed next to a folder of its own name — two folders of one name (and one
